@@ -22,6 +22,7 @@ class C17(Prop):
         "NV.C17.fresh_binary_used",
         "NV.C17.include_resolution_partial",
         "NV.C17.includes_resolve_as_recorded",
+        "NV.C17.parent_include_shadow_partial",
         "NV.C17.incOpen_spec",
         "NV.C17.saved_only_against_current_parents",
         "NV.C17.current_parents_are_saved",
@@ -61,6 +62,7 @@ class C17(Prop):
         "NV.C17.conditional_patch_list_misses_switch",
         "NV.C17.old_saved_against_outdated_parent",
         "NV.C17.include_shadowing_not_seen",
+        "NV.C17.unsaved_parent_include_shadowing_not_seen",
     ]
     consts = [("switchCaseSize", "SWITCH_CASE_SIZE"), ("fSwitch", "F_SWITCH"), ("nameInherited", "NAME_INHERITED"),
               ("indexStartNone", "INDEX_START_NONE"), ("sizeofProgram", "sizeof(program_t)"),
@@ -113,8 +115,8 @@ class C17(Prop):
             "toggled; chains with unsaved parents; every reload either in the same process or each in a fresh process; "
             "in half of the cases a reference compile of the current sources (own process, no binaries) before every reload, which the program loaded from a binary is compared with; reload after every step with permuted string addresses; every decision branch of the model is taken (histogram.decision_branches); non-trivial = trace with >= 2 lines; distinct = "
             "distinct canonical implementation trace")
-    not_covered = ["the '!' (missed candidate) entries of an UNSAVED parent are not kept: shadowing of an include of an unsaved "
-                   "parent is seen only when that parent is compiled again",
+    not_covered = ["open finding C17-unsaved-parent-include-shadowed: an include of a parent WITHOUT saved binary shadowed by a file older "
+                   "than the child's binary (witness, partial theorem, replay input; the newer case is proved caught)",
                    "the refusal branches of save_binary for programs / include lists above USHRT_MAX and strings of USHRT_MAX "
                    "or more (they are the hypotheses of binary_file_roundtrip; no generated program is that large)",
                    "clock granularity: an edit in the same second as a load or a save (the quantifier has distinct times)",
